@@ -101,7 +101,7 @@ namespace AIToolbox::Bandit {
             return wrap.sampleAction();
         }
 
-        valueBuffer_ = (q_ / temperature_).array().exp();
+        valueBuffer_ = ((q_.array() - q_.maxCoeff()) / temperature_).exp();
 
         unsigned infinities = 0;
         for ( size_t a = 0; a < buffer_.size(); ++a )
@@ -127,7 +127,7 @@ namespace AIToolbox::Bandit {
             return wrap.getActionProbability(a);
         }
 
-        valueBuffer_ = (q_ / temperature_).array().exp();
+        valueBuffer_ = ((q_.array() - q_.maxCoeff()) / temperature_).exp();
 
         bool isAInfinite = false;
         unsigned infinities = 0;
@@ -152,7 +152,7 @@ namespace AIToolbox::Bandit {
             return wrap.getPolicy(p);
         }
 
-        p = (q_ / temperature_).array().exp();
+        p = ((q_.array() - q_.maxCoeff()) / temperature_).exp();
 
         unsigned infinities = 0;
         double sum = 0.0;
@@ -164,8 +164,6 @@ namespace AIToolbox::Bandit {
 
         if ( infinities )
             p = p.array().isInf().template cast<double>() / infinities;
-        else if ( checkEqualSmall(sum, 0.0) )
-            p.fill(1.0 / buffer_.size());
         else
             p /= sum;
     }
